@@ -187,9 +187,9 @@ class AstToSqlVisitor(visitor.NodeVisitor):
         comparator = self.visit(node.comparator)
 
         # In case of a subexpression, wrap it in parentheses
-        if isinstance(node.left, (ast.BoolOp, ast.Compare)):
+        if self._is_boolean_expression(node.left):
             left = f"({left})"
-        if isinstance(node.right, (ast.BoolOp, ast.Compare)):
+        if self._is_boolean_expression(node.right):
             right = f"({right})"
 
         #  'null eq/ne x' means the same as 'x eq/ne null'
@@ -207,6 +207,16 @@ class AstToSqlVisitor(visitor.NodeVisitor):
                 comparator = "IS NOT"
 
         return f"{left} {comparator} {right}"
+
+    @staticmethod
+    def _is_boolean_expression(node: ast._Node) -> bool:
+        ":meta private:"
+        if isinstance(node, (ast.BoolOp, ast.Compare)):
+            return True
+        if isinstance(node, ast.UnaryOp) and isinstance(node.op, ast.Not):
+            return True
+        # Boolean functions like `contains` are rendered as LIKE expressions:
+        return isinstance(node, ast.Call) and typing.infer_type(node) is ast.Boolean
 
     def visit_And(self, node: ast.And) -> str:
         ":meta private:"
